@@ -1,5 +1,6 @@
 import FrappyDrive.Util
 import FrappyModel.Spec.C16
+import FrappyModel.Timed.CommGlue
 /- line-protocol glue for C16 -/
 namespace Frappy.Drive.C16
 open Lean Frappy.Drive Frappy.Comm Frappy.Spec.C16
@@ -81,6 +82,22 @@ def parseCfg (j : Json) : R Cfg := do
 
 def pcName (p : Pc) : String := (reprStr p)
 
+/-- the send terminator (`eol_w`; the receive terminator when not given) -/
+def parseEolW (j : Json) : R Bytes := do
+  match (j.getObjValAs? String "eol_w").toOption with
+  | some s => return bytesOf s
+  | none => return bytesOf (← fldStr j "eol")
+
+def parseTarget (j : Json) : R (Nat × Nat) := do
+  match ← arr j with
+  | [h, p] => return (← h.getNat?, ← p.getNat?)
+  | _ => throw "bad target"
+
+def planEvJson : PlanEv → Json
+  | .slp d => jarr [Json.str "slp", jnat d]
+  | .flush => jarr [Json.str "flush"]
+  | .send d => jarr [Json.str "send", jbytes d]
+
 def framedJson : Framed → Json
   | .got l r u => Json.mkObj [("line", jbytes l), ("rest", jbytes (r ++ u.flatten))]
   | .pending b => Json.mkObj [("line", Json.null), ("rest", jbytes b)]
@@ -107,8 +124,13 @@ def handle (j : Json) : R Json := do
           ("cbs", jnats s.cbsReg)])]
   | "judge" =>
     let cfg ← parseCfg (← fld j "cfg")
+    let eolW ← parseEolW (← fld j "cfg")
     let cbs ← fldNats j "cbs"
-    let evs ← (← fldArr j "events").mapM parseEv
+    let evs0 ← (← fldArr j "events").mapM parseEv
+    let evs := expandCalls cfg.waitBefore (if cfg.bytesMode then [] else eolW) evs0
+    let targets ← match (j.getObjVal? "targets").toOption with
+      | some a => do pure (some (← (← arr a).mapM parseTarget))
+      | none => pure none
     let pollname := (j.getObjValAs? Nat "pollname").toOption
     let mods := ((j.getObjVal? "mods").toOption.bind (fun m => (m.getArr?).toOption)).map
       (fun a => a.toList.filterMap (fun x => x.getNat?.toOption))
@@ -118,8 +140,8 @@ def handle (j : Json) : R Json := do
       ("exchange_atomic", exchangeAtomicB evs),
       ("delays_honoured", delaysHonouredB evs),
       ("transaction_protected", transactionProtectedB evs),
-      ("stale_discarded", staleDiscardedB cfg.bytesMode cfg.eol evs),
-      ("reply_pairing", replyPairingB cfg.bytesMode cfg.eol evs),
+      ("stale_discarded", staleDiscardedB cfg.bytesMode cfg.eol (joinLines evs0)),
+      ("reply_pairing", replyPairingB cfg.bytesMode cfg.eol (joinLines evs0)),
       ("fails_within_timeout", failsWithinTimeoutB cfg evs),
       ("state_visible", stateVisibleB evs),
       ("closed_visible", closedVisibleB evs),
@@ -128,10 +150,22 @@ def handle (j : Json) : R Json := do
       ("attempts_atomic", attemptsAtomicB evs),
       ("reconnect_rate_limited_all", rateLimitedAllB cfg evs),
       ("callbacks_once", callbacksOnceB cbs evs),
+      ("wait_before_honoured", waitBeforeHonouredB cfg.waitBefore (if cfg.bytesMode then [] else eolW) evs),
+      ("command_intact", commandIntactB evs),
+      ("reconnect_same_target", match targets with
+        | some ts => reconnectSameTargetB ts evs
+        | none => true),
       ("polling_resumes", match pollname with
         | some n => pollingResumesB n (mods.getD []) within evs
         | none => true)]
     return Json.mkObj (clauses.map fun (n, b) => (n, Json.bool b))
+  | "plan" =>     -- what one StringIO.communicate puts on the wire (the model's transcription)
+    let w ← fldNat j "wait_before"
+    return jarr ((commPlan w (bytesOf (← fldStr j "eol_w")) (bytesOf (← fldStr j "cmd"))).map planEvJson)
+  | "targets" =>  -- the ports of n successive connects
+    let up := (j.getObjValAs? Nat "uri_port").toOption
+    let dp := (j.getObjValAs? Nat "default_port").toOption
+    return jnats (connectTargets up (← fldNat j "n") ⟨dp⟩)
   | "frame" =>
     let chunks ← (← fldArr j "chunks").mapM getBytes
     let buf := bytesOf (← fldStr j "buf")
